@@ -60,9 +60,12 @@ func sourceSeeds(fi *FuncInfo) []*types.Var {
 	}
 	// a private statement constructor that is handed the source expression alone (`indexLoop(index, sourceID, body)`):
 	// its *JenID parameter is the source when every call passes a source seed of the caller
-	if nType == 0 && len(ids) > 0 && !fi.Obj.Exported() && sig.Recv() == nil && theProg != nil && !seedBusy[fi] {
-		seedBusy[fi] = true
-		defer delete(seedBusy, fi)
+	if nType == 0 && len(ids) > 0 && !fi.Obj.Exported() && sig.Recv() == nil && fi.P != nil && !fi.P.seedBusy[fi] {
+		if fi.P.seedBusy == nil {
+			fi.P.seedBusy = map[*FuncInfo]bool{}
+		}
+		fi.P.seedBusy[fi] = true
+		defer delete(fi.P.seedBusy, fi)
 		var out []*types.Var
 		for _, prm := range ids {
 			idx := -1
@@ -72,7 +75,7 @@ func sourceSeeds(fi *FuncInfo) []*types.Var {
 				}
 			}
 			n, all := 0, true
-			for _, cs := range theProg.Calls() {
+			for _, cs := range fi.P.Calls() {
 				f, ok := cs.Callee.(*types.Func)
 				if !ok || f.Origin() != fi.Obj.Origin() || cs.Encl == nil {
 					continue
@@ -100,12 +103,6 @@ func sourceSeeds(fi *FuncInfo) []*types.Var {
 	}
 	return nil
 }
-
-// theProg is the program under analysis (set by Load); seedBusy guards the recursion of sourceSeeds.
-var (
-	theProg  *Prog
-	seedBusy = map[*FuncInfo]bool{}
-)
 
 // carriesCode: only values that can hold (a name of) generated code propagate derivation.
 func carriesCode(t types.Type) bool {
